@@ -244,3 +244,28 @@ func VH_C07_Long() {
 	symAssert(ok, "no-raw-specials")
 	symAssert(back == v, "decodes-back")
 }
+
+// VH_C07_Args: the filter called with an argument (a strategy name as Twig has them, an unknown word, a
+// symbolic byte, a number): whatever the argument means to the engine, the output contains no raw special.
+func VH_C07_Args() {
+	n := symChoice(symParam("N", 2) + 1)
+	v := symString(n)
+	arg := []string{"'html'", "'js'", "'css'", "'url'", "'html_attr'", "'nosuch'", "''", "a", "1", "true", "'html', 'UTF-8'"}[symChoice(11)]
+	symTag("arg:" + arg)
+	name := "escape"
+	if symBool() {
+		name = "e"
+	}
+	e := New()
+	if e.RegisterString("t", "{{ v|"+name+"("+arg+") }}") != nil {
+		symCover("rejected-at-parse")
+		return
+	}
+	out, err := e.Render("t", map[string]interface{}{"v": v, "a": symStringIn(1, "hju<")})
+	symCover("rendered")
+	if err != nil {
+		return // refusing an argument is an answer
+	}
+	_, ok := vhUnescape(out)
+	symAssert(ok, "no-raw-specials")
+}
